@@ -468,7 +468,18 @@ impl Space for Faults {
                         r.count(&format!("subject_panic_{site}"), 1);
                     }
                     let (vs, class) = judge(b, sp, base, &obs);
+                    // a run that goes on into other regions of the same file (its checksum sector / trailer)
+                    // is its own class: it alters the data together with the metadata that protects it
+                    let mut also: Vec<&str> = vec![];
+                    for &(pos, _) in &f.writes {
+                        if let Some(s2) = b.spans.iter().find(|s| s.start <= pos && pos < s.end) {
+                            if s2.region != sp.region && !also.contains(&s2.region.as_str()) {
+                                also.push(s2.region.as_str());
+                            }
+                        }
+                    }
                     for (sym, det) in vs {
+                        let sym = if also.is_empty() { sym } else { sym.replacen(" -> ", &format!(" together with {} -> ", also.join(" and ")), 1) };
                         if !seen_sym.contains(&sym) {
                             seen_sym.push(sym.clone());
                             r.viol(sym, format!("fault {} at offset {} (+{} in {}): {}", f.label, o, o as usize - sp.start, sp.region, det));
